@@ -124,6 +124,15 @@ def hopsOf (cfg : Feeflow.Cfg) (asset : Nat) (kind : String) : Option (List (Nat
     | none => none
   else none
 
+/-- the `FeesFor` named by a direct `collect` / `aggregate` line: `vfac` | `pfac` | `xfac` | `pool <k>` | `vault <k>` -/
+def feesFor? : List String → Option Collector.FeesFor
+  | ["vfac"] => some .vaultFactory
+  | ["pfac"] => some .poolFactory
+  | ["xfac"] => some .wrongFactory
+  | ["pool", k] => k.toNat?.map .onePool
+  | ["vault", k] => k.toNat?.map .oneVault
+  | _ => none
+
 /-- parse one op line into a model op (`none` = cannot parse) -/
 def parseOp (cfg : Feeflow.Cfg) (now sender : Nat) (op : String) (args : List String) (rcd : List (String × String)) :
     Option Feeflow.Op :=
@@ -174,6 +183,12 @@ def parseOp (cfg : Feeflow.Cfg) (now sender : Nat) (op : String) (args : List St
     match p.toNat?, o.toNat? with
     | some p, some o => some (.toggle sender p (o == 1))
     | _, _ => none
+  | "collect", target => (feesFor? target).map fun f => .collect sender f
+  | "aggregate", target =>
+    match feesFor? target, parseKeyed (lookupStr rcd "@outs" "?"), parseKeyed (lookupStr rcd "@acc" "?") with
+    | some f, some outs, some acc =>
+      some (.aggregate sender f (fun st a _ => (lookup2 outs st a).getD 0) (fun p sd => (lookup2 acc p sd).getD 0))
+    | _, _, _ => none
   | _, _ => none
 
 /-- the recorded answers must cover exactly what the model asks of them -/
@@ -187,6 +202,11 @@ def recordedCovers (cfg : Feeflow.Cfg) (s : Feeflow.St) (op : Feeflow.Op) (rcd :
     match Feeflow.newEpoch cfg s now router acc, parseKeyed (lookupStr rcd "@outs" "?") with
     | .ok (_, o), some outs =>
       o.swaps.length == outs.length && o.swaps.all fun sw => (lookup2 outs sw.1 sw.2.1).isSome
+    | _, _ => true
+  | .aggregate sender f router acc =>
+    match Collector.aggregateFees cfg.c s.c sender f router acc, parseKeyed (lookupStr rcd "@outs" "?") with
+    | .ok (_, _, sws), some outs =>
+      sws.length == outs.length && sws.all fun sw => (lookup2 outs sw.1 sw.2.1).isSome
     | _, _ => true
   | _ => true
 
